@@ -115,6 +115,11 @@ class ListSpec(hist.Spec):
         ops.append(('donor_mut', self.names[1]))
         for n in self.names:
             ops.append(('donor_inplace', n))
+        # reads (and one refused write) through the proxy of a child: when the child is absent they leave a temporary
+        # traversal child behind, which later edits by name must not mistake for an actual one
+        for n in self.names:
+            ops.append(('touch', n))
+        ops.append(('touch_bad', self.names[1]))
         return ops
 
     def spelling(self, n, how):
@@ -153,6 +158,10 @@ class ListSpec(hist.Spec):
             setattr(r, op[1], getattr(d, op[1]))
         elif k == 'copy_el':
             setattr(r, op[1], getattr(d, op[1])[0])
+        elif k == 'touch':
+            getattr(r, op[1].lower()).value
+        elif k == 'touch_bad':
+            setattr(getattr(r, op[1].lower()), 'no_such_child_9', 'x')
         elif k == 'donor_mut':
             setattr(d, op[1], self.values[op[1]][1] if self.kind != 'field' else 'DM')
         elif k == 'donor_inplace':
@@ -243,6 +252,8 @@ class ListSpec(hist.Spec):
             if p is None:
                 return model, None          # nothing to copy: outcome unspecified (raises or no-op)
             return self._ret(m, model, put(op[1], 0, m['donor'][p][1]))
+        if k in ('touch', 'touch_bad'):
+            return model, None              # whether it raises is not the list model's business; the list is unchanged
         if k == 'donor_inplace':
             p = self._nth(m['donor'], op[1], 0)
             if p is None:
@@ -331,6 +342,11 @@ class ListSpec(hist.Spec):
             res.violation(base + '|unexpected-raise|' + exc_class(ctx.exc),
                           '%s: %r after %r raises %s: %s; the list model accepts it' % (self.sid, op, list(ctx.hist), exc_class(ctx.exc), ctx.exc),
                           point, rank)
+            return
+        if ctx.expect == 'raise' and ctx.outcome == 'ok' and self.agrees(ctx.after, ctx.model_before):
+            # accepted where the list model has nothing to edit, and nothing changed: the encodings still agree, which is
+            # all the statement asks (seen when a read left a temporary traversal child behind: del then finds that one)
+            res.classes['accepted-without-effect:%s' % op[0]] += 1
             return
         if ctx.expect == 'raise' and ctx.outcome == 'ok':
             res.violation(base + '|unexpected-accept', '%s: %r after %r is accepted; the list model rejects it (absent child / index)'
